@@ -45,7 +45,13 @@ func SerializeKey(key jwk.Key) ([]byte, error) {
 			return nil, fmt.Errorf("invalid RSA private key: %w", err)
 		}
 		return x509.MarshalPKCS8PrivateKey(r)
-	case *ecdsa.PrivateKey, ed25519.PrivateKey: // Other private keys: marshal as PKCS#8
+	case *ecdsa.PrivateKey: // ECDSA private keys: marshal as PKCS#8
+		// Marshalling writes the private scalar into a buffer of the curve's size and panics if it does not fit
+		if r.Curve == nil || r.D == nil || r.D.Sign() <= 0 || r.D.Cmp(r.Curve.Params().N) >= 0 {
+			return nil, errors.New("invalid ECDSA private key: scalar is out of range")
+		}
+		return x509.MarshalPKCS8PrivateKey(r)
+	case ed25519.PrivateKey: // Ed25519 private keys: marshal as PKCS#8
 		return x509.MarshalPKCS8PrivateKey(r)
 	case *rsa.PublicKey, *ecdsa.PublicKey, ed25519.PublicKey: // Public keys: marshal as PKIX
 		return x509.MarshalPKIXPublicKey(r)
